@@ -15,8 +15,10 @@ pub enum J {
     Obj(Vec<(String, J)>),
 }
 
-/// Canonical text of a JSON number: integers exactly (any size that fits i128), everything else through f64
-/// (integral values below 2^63 print as integers, so 1.0 and 1 are the same number).
+/// Canonical text of a JSON number: integer literals exactly (any size that fits i128); literals with a fraction or an
+/// exponent through f64.  An integral value written as a float (100.0, 1e2) keeps a ".0": the library (serde_json) returns
+/// 100.0 for 100.0 and 100 for 100, and "the original claims exactly" (C01, C16) is taken at that granularity - a disclosure
+/// text that turns 100.0 into 100 changes what the verifier returns (seeded W12_3m1).
 pub fn canon_num(t: &str) -> String {
     if let Ok(i) = t.parse::<i128>() {
         return i.to_string();
@@ -24,7 +26,7 @@ pub fn canon_num(t: &str) -> String {
     match t.parse::<f64>() {
         Ok(f) if f.is_finite() => {
             if f == f.trunc() && f.abs() < 9.2e18 {
-                format!("{}", f as i128)
+                format!("{}.0", f as i128)
             } else {
                 format!("{:e}", f)
             }
